@@ -796,12 +796,29 @@ func genRange(r *hlib.Rand, blocks []specBlock) (int64, int64) {
 			hi = b.maxt
 		}
 	}
-	switch r.Intn(5) {
+	switch r.Intn(6) {
 	case 0:
 		return lo - 10, hi + 10
 	case 1:
 		t := r.I64Range(lo, hi)
 		return t, t
+	case 2: // on block and chunk boundaries (half-open block ranges, closed query ranges)
+		pick := func() int64 {
+			b := blocks[r.Intn(len(blocks))]
+			cands := []int64{b.mint, b.maxt, b.maxt - 1, b.mint - 1}
+			if len(b.series) > 0 {
+				if s := b.series[r.Intn(len(b.series))]; len(s.chunks) > 0 {
+					c := s.chunks[r.Intn(len(s.chunks))]
+					cands = append(cands, c.mint, c.maxt, c.mint-1, c.maxt+1)
+				}
+			}
+			return cands[r.Intn(len(cands))]
+		}
+		a, b := pick(), pick()
+		if a > b {
+			a, b = b, a
+		}
+		return a, b
 	default:
 		a := r.I64Range(lo-5, hi)
 		return a, a + r.I64Range(0, hi-lo)
